@@ -1,3 +1,3 @@
-From LV Require Import Base.Bytes Gen.GenH2 H2.H2Legal.
+From LV Require Import Base.Bytes Gen.GenH2 H2.H2Flow H2.H2Legal H2.H2Trace.
 Require Import ExtrOcamlBasic.
-Extraction "model.ml" legal Nat.pred.
+Extraction "model.ml" legal Nat.pred trace h2_init.
